@@ -92,6 +92,11 @@ def run(ctx: core.Ctx):
                 ctx.count(2)
                 if A.shape != (len(ys),) or not np.allclose(A, zs, rtol=0, atol=1e-12, equal_nan=True) or A2.shape != (2, len(ys)) or not np.allclose(A2[1], zs, rtol=0, atol=1e-12, equal_nan=True):
                     ctx.violation(f"{k}.tsukamoto/array", base, zs, A.tolist())
+                for sh in ((1,), (1, 1)):       # batches of length one keep their shape
+                    r1 = np.asarray(term.tsukamoto(np.full(sh, ys[len(ys) // 2])), dtype=float)
+                    ctx.count()
+                    if r1.shape != sh or not np.allclose(r1.ravel(), [zs[len(ys) // 2]], rtol=0, atol=1e-12, equal_nan=True):
+                        ctx.violation(f"{k}.tsukamoto/single-element-array", dict(base, shape=list(sh)), list(sh), list(r1.shape))
                 # a long-lived term of this kind, used before with other parameters and re-parameterised by plain attribute
                 # assignment, then called with arrays of the same shape as an earlier call: nothing may survive from earlier uses
                 from .fll import ATTRS
@@ -120,6 +125,23 @@ def run(ctx: core.Ctx):
                 ctx.violation(f"{k}.tsukamoto/array-raises", base, "elementwise values", f"{type(ex).__name__}: {ex}")
         ctx.traces += len(g.emitted)
         ctx.sample({kk: g.emitted[100][kk] for kk in ("k", "p", "h", "y", "z", "f")})
+    # parameters at the ends of the binary64 range (a palette outside TLC's enumeration: the exact model has no overflow).  The
+    # true inverse is finite and inside the term's range there, so z must be finite and membership(z) = y; the palette is the
+    # set of (kind, start, end, height) on which the documented inverse can be evaluated in binary64 without leaving its range
+    EXTREME = [("Ramp", 0.0, 1.0, 1e-300), ("Ramp", 0.0, 1.0, 1e-310), ("Ramp", 1.0, 0.0, 1e-310), ("Ramp", -8e307, 8e307, 0.5), ("Ramp", 8e307, -8e307, 0.5),
+               ("Ramp", 0.0, 1e-300, 1.0), ("Ramp", -1e-310, 1e-310, 0.5), ("Concave", 0.0, 1.0, 1e-300), ("Concave", 0.0, 1.0, 1e-310), ("Concave", 1.0, 0.0, 1e-310),
+               ("Concave", 0.0, 1e-300, 1.0), ("SShape", 0.0, 1.0, 1e-300), ("SShape", -8e307, 8e307, 0.5), ("ZShape", 0.0, 1.0, 1e-300), ("ZShape", -8e307, 8e307, 0.5),
+               ("SShape", 0.0, 1e-300, 1.0), ("ZShape", 0.0, 1e-300, 1.0), ("Arc", 0.0, 1.0, 1e-300), ("Arc", 1.0, 0.0, 1e-310)]
+    for k, s_, e_, h in EXTREME:
+        term = getattr(fl, k)("t", s_, e_, h)
+        for f in (0.125, 0.25, 0.5, 0.75, 0.875):
+            y = h * f
+            ctx.count()
+            z = float(term.tsukamoto(y))
+            m = float(term.membership(z)) if math.isfinite(z) else math.nan
+            if not math.isfinite(z) or not abs(m - y) <= 1e-6 * y:
+                ctx.violation(f"{k}.tsukamoto/extreme-parameters", {"k": k, "start": s_, "end": e_, "height": h, "y": y}, y, [z, m],
+                              note=f"{k}({s_}, {e_}, height={h}): z({y}) = {z}, membership(z) = {m}")
     if exact_states < 500:
         raise MachineryError(f"only {exact_states} states with an exact inverse: InverseExact is nearly vacuous")
     ctx.extra["states_with_exact_inverse"] = exact_states
